@@ -3,18 +3,32 @@ pub mod common;
 pub mod rtok;
 pub mod tokh;
 pub mod c01;
+pub mod c04;
 pub mod c11;
 pub mod c12;
 pub mod c13;
+pub mod c14;
+pub mod c18;
+pub mod c20;
+pub mod dom;
+pub mod e2;
+pub mod treeh;
+pub mod xmlh;
 
 use common::*;
 pub fn run(ctx: &Ctx) -> ! {
     match ctx.prop.as_str() {
         "C01" => c01::main(ctx, false),
+        "C04" => e2::main(ctx, e2::Prop::C04),
+        "C05" => e2::main(ctx, e2::Prop::C05),
+        "C06" => e2::main(ctx, e2::Prop::C06),
+        "C18" => e2::main(ctx, e2::Prop::C18),
+        "C20" => c20::main(ctx),
         "C09" => c01::main(ctx, true),
         "C11" => c11::main(ctx),
         "C12" => c12::main(ctx),
         "C13" => c13::main(ctx),
+        "C14" => c14::main(ctx),
         p => machinery(&format!("no check for {p}")),
     }
 }
@@ -22,10 +36,16 @@ pub fn replay(ctx: &Ctx, v: &serde_json::Value, witness: &str) {
     let check = v["check"].as_str().unwrap_or(&ctx.prop).to_string();
     match check.as_str() {
         "C01" => c01::replay(ctx, v, false),
+        "C04" => e2::replay(ctx, e2::Prop::C04, v),
+        "C05" => e2::replay(ctx, e2::Prop::C05, v),
+        "C06" => e2::replay(ctx, e2::Prop::C06, v),
+        "C18" => e2::replay(ctx, e2::Prop::C18, v),
+        "C20" => e2::replay(ctx, e2::Prop::C20, v),
         "C09" => c01::replay(ctx, v, true),
         "C11" => c11::replay_with(ctx, witness, &c11::NoMonitor),
         "C12" => c12::replay(ctx, witness),
         "C13" => c13::replay(ctx, witness),
+        "C14" => c14::replay(ctx, v),
         p => machinery(&format!("no replay for {p}")),
     }
 }
